@@ -4,8 +4,9 @@ from . import ctr_common as C
 ID = "C06"
 MOD = "harness.props.c06"
 T = "MetadorModel.C06."
+B = "MetadorModel.Bridge.TocFns."  # translated tie (harness/translate_c06.py)
 LEAN = dict(
-    modules=["MetadorModel.Props.C06"],
+    modules=["MetadorModel.Props.C06", "MetadorModel.Bridge.TocFnsPaths", "MetadorModel.Bridge.TocFnsPkg", "MetadorModel.Bridge.TocFnsSchemas", "MetadorModel.Bridge.TocFnsLinks", "MetadorModel.Bridge.TocFnsMeta", "MetadorModel.Bridge.TocFnsWrap", "MetadorModel.Bridge.TocFnsInv"],
     theorems=[T + n for n in (
         "link_points_to_object",
         "object_attached_to_node",
@@ -31,9 +32,50 @@ LEAN = dict(
         "sync_step_needs_names",
         "env3_wf",
         "hist1_obj",
+    )] + [B + n for n in (
+        "gen_pkginfo_path_for",
+        "gen_schema_path_for",
+        "gen_jsonschema_path_for",
+        "gen_link_path_for",
+        "gen_to_path",
+        "gen_add_providers",
+        "gen_pkg_register",
+        "gen_pkg_register_closed",
+        "gen_pkg_unregister",
+        "gen_pkg_init",
+        "gen_upc_add",
+        "gen_upc_remove",
+        "gen_schema_register",
+        "gen_schema_unregister",
+        "gen_schemas_init",
+        "gen_links_init",
+        "gen_link_resolve",
+        "gen_link_update",
+        "gen_link_register",
+        "gen_link_unregister",
+        "gen_find_missing",
+        "gen_repair_missing",
+        "gen_set_raw",
+        "gen_del_raw",
+        "gen_destroy",
+        "gen_setitem",
+        "gen_delitem",
+        "gen_meta_init",
+        "gen_guard_path",
+        "gen_node_destroy_meta",
+        "gen_group_destroy_meta",
+        "gen_group_delitem",
+        "gen_group_move",
+        "gen_group_copy",
+        "PkgTreeOK.of_inv",
+        "LinkTreeOK.of_inv",
+        "MetaDirOK.of_inv",
     )],
     drivers=["drv_ctr"],
 )
+
+
+translate = C.translate
 
 
 def impl(case):
